@@ -28,17 +28,21 @@ Inductive conv : Type :=
 | CId                                  (* copied: same type on both sides *)
 | CStrBytes                            (* string(x) / []byte(x) *)
 | CInt (src dst : ity)                 (* integer conversion T(x) *)
-| CDurTo | CDurFrom                    (* durationpb.New / (*Duration).AsDuration *)
-| CTimeTo | CTimeFrom                  (* timestamppb.New / (*Timestamp).AsTime *)
+| CDurTo | CDurFrom                    (* durationpb.New / Duration.AsDuration *)
+| CTimeTo | CTimeFrom                  (* timestamppb.New / Timestamp.AsTime *)
 | CEnum (pairs : list (Z * Z)) (dflt : Z)   (* switch over constants with a default *)
 | CList (c : conv)                     (* make + for-range over a slice *)
 | CMapV (c : conv)                     (* make + for-range over a map, keys copied *)
 | CSetToList | CListToSet              (* map[string]struct{} <-> []string *)
-| CRec (to : bool) (n : string)        (* X.ToProto() / XFromProto(..) of struct type n *)
-| CNilable (c : conv)                  (* callee starts with `if x == nil { return nil }` *)
+| CRec (to nilable : bool) (n : string)
+    (* X.ToProto() / XFromProto(..) of struct type n; nilable: the callee starts with
+       `if x == nil { return nil }` *)
 | CProj (f : string) | CInj (f : string)    (* v.F used as the whole payload / &T{F: x} *)
 | CQTo | CQFrom                        (* QToProto / QFromProto *)
-| CReTo | CReFrom                      (* regexp printing / parsing (may fail) *)
+| CReTo (syn : bool) | CReFrom (syn : bool)
+    (* regexp printing / parsing (may fail). syn = true: a *syntax.Regexp printed by RegexpString and
+       re-parsed by syntax.Parse (the printed form is a normal form); syn = false: a compiled
+       *regexp.Regexp, which keeps its source text *)
 | CBitmapTo | CBitmapFrom              (* roaring ToBytes / UnmarshalBinary (may fail) *)
 | CFlagsTo (pairs : list (Z * Z))      (* RawConfig bit set -> list of enum flags: (mask, flag) *)
 | CFlagsFrom (pairs : list (Z * Z))    (* list of enum flags -> bit set: (flag, mask) *)
